@@ -16,3 +16,16 @@ Theorem C17_lookup_compile_is_union :
   forall rs cc c, (forall r, In r rs -> rb r < re r) -> compile rs = Some cc -> lookup cc c = spec rs c.
 Proof. exact lookup_compile_is_union. Qed.
 Print Assumptions C17_lookup_compile_is_union.
+
+(* CharacterCategory::iter() (used to build the yomigana pattern): every yielded range carries the classes lookup reports
+   inside it; the iterator fails (panics in the code) exactly on the table of an empty definition list *)
+Theorem C17_iter_agrees_with_lookup :
+  forall rs cc its l r x c, (forall r, In r rs -> rb r < re r) -> compile rs = Some cc -> iter cc = Some its ->
+    In (l, r, x) its -> l <= c < r -> lookup cc c = x.
+Proof. exact iter_agrees_with_lookup. Qed.
+Print Assumptions C17_iter_agrees_with_lookup.
+
+Theorem C17_iter_none_iff_default :
+  forall rs cc, (forall r, In r rs -> rb r < re r) -> compile rs = Some cc -> (iter cc = None <-> rs = nil).
+Proof. exact iter_none_iff_default. Qed.
+Print Assumptions C17_iter_none_iff_default.
